@@ -205,11 +205,17 @@ fn resolve_symbols_and_select_archive_entries<'data, P: Platform>(
         per_symbol_flags: &atomic_per_symbol_flags,
     };
 
+    #[cfg(wild_verif)]
+    crate::verif_ev!("ResBegin");
+
     rayon::in_place_scope(|scope| {
         initial_work.into_par_iter().for_each(|work_item| {
             process_object(work_item, &resources, scope);
         });
     });
+
+    #[cfg(wild_verif)]
+    crate::verif_ev!("ResEnd", "\"loaded\":{}", outputs.loaded.len());
 
     {
         verbose_timing_phase!("Drop definitions_per_group_and_file");
@@ -511,13 +517,23 @@ impl<'scope, 'data, P: Platform> ResolutionResources<'data, 'scope, P> {
         if atomic_take.is_taken() {
             // The definitions have previously been taken indicating that this file has already been
             // processed, nothing more to do.
+            #[cfg(wild_verif)]
+            crate::verif_ev!("Peek", "\"f\":{},\"taken\":true", file_id.as_u32());
             return;
         }
 
+        #[cfg(wild_verif)]
+        crate::verif::yield_point(20);
+
         let Some(definitions_out) = atomic_take.take() else {
             // Another thread just beat us to it.
+            #[cfg(wild_verif)]
+            crate::verif_ev!("Take", "\"f\":{},\"won\":false", file_id.as_u32());
             return;
         };
+
+        #[cfg(wild_verif)]
+        crate::verif_ev!("Take", "\"f\":{},\"won\":true", file_id.as_u32());
 
         work_items_do(
             file_id,
@@ -546,6 +562,9 @@ fn work_items_do<'definitions, 'data, P: Platform>(
     outputs: &Outputs<'data, P>,
     mut request_callback: impl FnMut(LoadObjectSymbolsRequest<'definitions>),
 ) {
+    #[cfg(wild_verif)]
+    crate::verif_ev!("Load", "\"f\":{}", file_id.as_u32());
+
     match &symbol_db.groups[file_id.group()] {
         Group::Objects(parsed_input_objects) => {
             let obj = &parsed_input_objects[file_id.file()];
@@ -803,6 +822,9 @@ fn process_object<'scope, 'data: 'scope, 'definitions, P: Platform>(
     let file_id = work_item.file_id;
     let definitions_out = work_item.definitions_out;
 
+    #[cfg(wild_verif)]
+    crate::verif::yield_point(21);
+
     match &resources.symbol_db.groups[file_id.group()] {
         Group::Prelude(prelude) => {
             verbose_timing_phase!("Resolve prelude symbols");
@@ -888,6 +910,8 @@ fn load_symbol_named<'scope, 'data, P: Platform>(
         *definition_out = symbol_id;
 
         let symbol_file_id = resources.symbol_db.file_id_for_symbol(symbol_id);
+        #[cfg(wild_verif)]
+        crate::verif_ev!("Request", "\"by\":0,\"f\":{}", symbol_file_id.as_u32());
         resources.try_request_file_id(symbol_file_id, scope);
     }
 }
@@ -1441,6 +1465,13 @@ pub(crate) fn resolve_symbol<'data, 'scope, P: Platform>(
                 // https://github.com/wild-linker/wild/issues/930#issuecomment-3007027924 for
                 // more details. TODO: Fix this.
                 if !is_dynamic || !resources.symbol_db.file(symbol_file_id).is_dynamic() {
+                    #[cfg(wild_verif)]
+                    crate::verif_ev!(
+                        "Request",
+                        "\"by\":{},\"f\":{}",
+                        file_id.as_u32(),
+                        symbol_file_id.as_u32()
+                    );
                     resources.try_request_file_id(symbol_file_id, scope);
                 }
             } else if symbol_file_id != PRELUDE_FILE_ID {
